@@ -39,6 +39,7 @@ type xOutput struct {
 	withVar  bool
 	guard    string // "" | accept | reject | atleast2
 	inverted bool
+	propVar  bool // the pattern is {"?p": key}: some property (which one is left open) has the value
 }
 
 type xLine struct {
@@ -113,6 +114,9 @@ func runC19(c *sim.Ctx, t *testing.T) {
 		nout := 1 + c.Intn(3, "nout")
 		for j := 0; j < nout; j++ {
 			o := xOutput{key: fmt.Sprintf("s%do%d", i, j), withVar: c.Bool("withvar")}
+			if !o.withVar && c.Chance(1, 5, "propvar") {
+				o.propVar = true
+			}
 			if o.withVar {
 				o.guard = []string{"", "accept", "atleast2", "atleast2"}[c.Intn(4, "guard")]
 			} else {
@@ -253,6 +257,9 @@ func runC19(c *sim.Ctx, t *testing.T) {
 				pat = map[string]interface{}{"bad": o.key}
 			} else if o.withVar {
 				pat["v"] = "?v"
+			} else if o.propVar {
+				// the only property of the stream's messages that can hold the key is "k"
+				pat = map[string]interface{}{"?p": o.key}
 			}
 			iop.OutputSet = append(iop.OutputSet, Output{Pattern: pat, GuardSource: xGuardSrc(o.guard), Inverted: o.inverted})
 		}
